@@ -103,6 +103,7 @@ def mergeModifyRowFn (j : Json) : P Json := do
 def dbHistory (j : Json) : P Json := do
   let σ ← dbModelOfJson (← jField j "model")
   let txns ← jArr (← jField j "txns")
+  let mons ← jFieldD j "monitors" (jList monitorOfJson) []
   let mut db := Database.empty σ
   let mut out : Array Json := #[]
   for t in txns do
@@ -115,7 +116,9 @@ def dbHistory (j : Json) : P Json := do
       | .error e => commitErr := some e
     out := out.push (Json.mkObj [("results", listToJson opResultToJson r.results), ("committed", .bool r.committed),
       ("commitErr", optToJson Json.str commitErr),
-      ("updates", updatesToJson r.updates), ("rows", rowsToJson db.toRows), ("refs", refsToJson (computeRefs σ db.toRows))])
+      ("updates", updatesToJson r.updates), ("rows", rowsToJson db.toRows), ("refs", refsToJson (computeRefs σ db.toRows)),
+      ("notifs1", listToJson (fun m => listToJson notif1ToJson (filter1 m r.updates)) mons),
+      ("notifs2", listToJson (fun m => listToJson notif2ToJson (filter2 m r.updates)) mons)])
   return .arr out
 
 def expandNamedFn (j : Json) : P Json := do
